@@ -192,8 +192,8 @@ class Oracle:
     lookup-sound     get(cfg) never returns a stored object whose identifiers are disjoint
                      from cfg's; an object it creates carries only identifiers of cfg
     lookup-complete  when a stored object shares an identifier with cfg, no object is
-                     created and the earliest such object is returned (for a non-bridging
-                     cfg that is THE object of the device: same object for every such cfg)
+                     created; when exactly one does (non-bridging cfg) that object is
+                     returned: the same object for every such cfg
     changed          content (declared fields) differs from last successful save/load
                      => changed; content identical in every key => not changed
     roundtrip        after a successful save(), a fresh FileStorage that load()s the file
@@ -234,12 +234,16 @@ class Oracle:
             if not set(ids_of(result)) <= set(cids):
                 self.problem("lookup-sound:foreign-identifier-in-new-object", ids_of(result), cids,
                              "a newly created settings object carries identifiers that are not the configuration's")
-        if sharing:
+        if len(sharing) == 1:
+            # exactly one stored device shares an identifier: THE object of that device.  (For a
+            # bridging configuration — several sharing devices — the property does not say which
+            # one; only soundness / no-creation are demanded here, the model pins "earliest".)
             if result is not sharing[0]:
-                self.problem("lookup-complete:not-the-earliest-sharing-object",
+                self.problem("lookup-complete:not-the-device-object",
                              {"config_ids": cids, "expected_ids": before_ids[[o is sharing[0] for o in before].index(True)],
-                              "returned_ids": ids_of(result)}, "earliest stored object sharing an identifier",
+                              "returned_ids": ids_of(result)}, "the stored object sharing an identifier",
                              "a configuration sharing an identifier with a stored device did not get that device's object")
+        if sharing:
             if len(storage.settings) != len(before):
                 self.problem("lookup-complete:storage-grew", len(storage.settings), len(before),
                              "lookup of a known device changed the number of stored devices")
